@@ -60,7 +60,7 @@ FLOORS = {
     'general:multi': (0.40, 'general:case'), 'general:untyped': (0.15, 'general:case'),
     'order:triple-all-comparable': (0.50, 'order:triple'), 'ebv:multi': (0.10, 'ebv:case'), 'logic:with-error-atom': (0.15, 'logic:case'),
     'pathlogic:abs-first-then-relative@inner': (0.25, 'pathlogic:case'), 'pathlogic:inner-context': (0.70, 'pathlogic:case'),
-    'value:durations-microseconds-apart': (0.04, 'value:pair'), 'order:durations-microseconds-apart': (0.06, 'order:triple'),
+    'value:durations-microseconds-apart': (0.04, 'value:pair'), 'order:durations-microseconds-apart': (0.04, 'order:triple'),
     'compat:boolean-vs-non-0-1': (0.25, 'compat:case'), 'compat:multi': (0.25, 'compat:case'), 'era:across-era': (0.30, 'era:pair'),
     'tzhistory:naive-vs-aware': (0.50, 'tzhistory:case'), 'tzhistory:timezone-changes': (0.60, 'tzhistory:case'),
 }
@@ -1041,7 +1041,7 @@ _DUR2, _DUR3 = A.duration_family(2), A.duration_family(3)
 @st.composite
 def value_case(draw):
     k = draw(st.integers(0, 19))
-    if k < 3:
+    if k < 4:
         a, b = draw(_DUR2)
         if draw(st.booleans()):
             a, b = b, a
@@ -1083,7 +1083,7 @@ general10_case = st.fixed_dictionaries({'a': _V10, 'b': _V10})
 
 @st.composite
 def order_case(draw):
-    return {'mode': draw(_mode), 'tz': draw(_tz), 'xs': draw(_DUR3 if draw(st.integers(0, 4)) == 0 else _TRIPLE_SAME)}
+    return {'mode': draw(_mode), 'tz': draw(_tz), 'xs': draw(_DUR3 if draw(st.integers(0, 2)) == 0 else _TRIPLE_SAME)}
 
 
 _EBV_ITEM = st.one_of(st.just('node'), _ANY, st.sampled_from(['boolean', 'string', 'integer', 'double', 'untypedAtomic', 'decimal',
